@@ -21,7 +21,7 @@ pub fn def() -> CheckDef {
         run,
         rule: "one drawn handle script (<= 80 calls of read, read-loop, fill_buf/consume, write, write_all, seek incl. i64/u64 extremes, set_len, flush, len, position, drop+open) on one stream next to a bystander stream; sizes and offsets straddle the buffer capacity (1024*4^k and the configured maximum), 64, 4096 and sector boundaries. The SAME script is executed under every max_buffer_size in {default 1 MiB, 0, 1, 1023, 1024, 1025, 1500, 4096, 5000, 65536} x {V3, V4} = 20 simulated runs per case, each checked call by call against a Vec<u8>+cursor model; for the half of the cases whose script avoids single read()/write()/consume() calls (their counts are a relation) the sequence of all observable results must be identical across the 20 configurations; content is re-read through a fresh handle and after reopen at the end. Non-trivial: >= 1 successful write or set_len; distinct = distinct (seam log, final image) hash of the combined runs.",
         assumptions: &["counts returned by single read()/write()/fill_buf() calls are a relation (1..=min(requested, available)); only their bytes are compared"],
-        cpu_limit_s: 60,
+        cpu_limit_s: 300,
         fault_kinds: "none (configuration knob max_buffer_size swept so the buffer-miss paths run)",
         count_subruns: false,
         expect_probes: &[],
